@@ -269,7 +269,8 @@ fn c11_big(ctx: &Ctx, subj: &dyn DynSubject, ty: &Ty, rep: &mut Report) {
     if ctx.u.label != "extra" || ctx.u.adts[*i].name != "G1" || light() {
         return;
     }
-    if !matches!(args.first(), Some(Arg::Ty(Ty::Vec(e))) if **e == Ty::Prim(Prim::U64)) {
+    let strings = matches!(args.first(), Some(Arg::Ty(Ty::Vec(e))) if **e == Ty::String);
+    if !strings && !matches!(args.first(), Some(Arg::Ty(Ty::Vec(e))) if **e == Ty::Prim(Prim::U64)) {
         return;
     }
     let mk = |n: usize| {
@@ -280,10 +281,12 @@ fn c11_big(ctx: &Ctx, subj: &dyn DynSubject, ty: &Ty, rep: &mut Report) {
         }
         Val::Rec(vec![Val::Seq(items)])
     };
-    let is_big = |v: &Val| matches!(v, Val::Rec(f) if matches!(f.first(), Some(Val::Seq(x)) if x.len() > 100_000));
+    let is_big = |v: &Val| matches!(v, Val::Rec(f) if matches!(f.first(), Some(Val::Seq(x)) if x.len() > 50_000));
     let vals = match crate::checks::replay_val() {
         Some(v) if is_big(&v) => vec![v],
         Some(_) => return,
+        // (for the vector of strings: the enumerated value of more than 2^16 deep-copy items)
+        None if strings => crate::checks::sweep_vals(ctx, ty),
         None => vec![mk(140_001), mk(300_008)],
     };
     let never = strategy_for(ctx, ty, GenCfg { max_len: 1, long: false });
@@ -295,7 +298,7 @@ fn c11_big(ctx: &Ctx, subj: &dyn DynSubject, ty: &Ty, rep: &mut Report) {
         }
         let len = std::fs::metadata(&path).map_err(|e| Fail::new("harness:tmpfile", format!("{}", e)))?.len() as usize;
         log.nontrivial = true;
-        log.classes.push(if len >= 2 << 20 { "file-over-2MiB-zero-tail".into() } else { "file-over-1MiB-zero-tail".into() });
+        log.classes.push(if strings { "file-of-65537-strings".into() } else if len >= 2 << 20 { "file-over-2MiB-zero-tail".into() } else { "file-over-1MiB-zero-tail".into() });
         log.sample = Some(json!({"subject": subj.name(), "file_len": len, "cuts": "each of the last 72 bytes", "loaders": "load_full, mmap under 6 flag combinations"}));
         let f = std::fs::OpenOptions::new().write(true).open(&path).map_err(|e| Fail::new("harness:tmpfile", format!("{}", e)))?;
         for k in (len - 72..len).rev() {
@@ -307,7 +310,7 @@ fn c11_big(ctx: &Ctx, subj: &dyn DynSubject, ty: &Ty, rep: &mut Report) {
                     Some(deser::Error::ReadError) => {}
                     other => return Err(Fail::new("trunc-loadfull-error", format!("load_full of a file cut at {} of {}: error is {:?} / {}, not ReadError", k, len, other, e)).env(json!({"k": k}))),
                 },
-                Ok(Ok(_)) => return Err(Fail::new("trunc-loadfull-value", format!("load_full of a file of {} bytes (trailing bytes zero) cut at {} returned a value", len, k)).env(json!({"k": k}))),
+                Ok(Ok(_)) => return Err(Fail::new("trunc-loadfull-value", format!("load_full of a file of {} bytes cut at {} returned a value", len, k)).env(json!({"k": k}))),
                 Err(p) => return Err(Fail::new(&format!("trunc-loadfull-panic:{}", panic_class(&p)), format!("load_full of a file cut at {} of {} panicked: {}", k, len, p)).env(json!({"k": k}))),
             }
             if cfg!(feature = "mmap") {
@@ -315,7 +318,7 @@ fn c11_big(ctx: &Ctx, subj: &dyn DynSubject, ty: &Ty, rep: &mut Report) {
                     log.extra_evals += 1;
                     match guard(|| subj.load(Loader::Mmap, &path, flags, crate::Script::Direct)) {
                         Ok(Err(_)) => {}
-                        Ok(Ok(_)) => return Err(Fail::new("trunc-mmap-value", format!("mmap (flag bits {:#b}) of a file of {} bytes (trailing bytes zero) cut at {} returned a value", flags, len, k)).env(json!({"k": k, "flags": flags}))),
+                        Ok(Ok(_)) => return Err(Fail::new("trunc-mmap-value", format!("mmap (flag bits {:#b}) of a file of {} bytes cut at {} returned a value", flags, len, k)).env(json!({"k": k, "flags": flags}))),
                         Err(p) => {
                             if !is_bounds_panic(&p) {
                                 return Err(Fail::new(&format!("trunc-mmap-panic:{}", panic_class(&p)), format!("mmap of a file cut at {} of {} panicked with something other than a bounds check: {}", k, len, p)).env(json!({"k": k})));
@@ -333,7 +336,7 @@ fn c11_big(ctx: &Ctx, subj: &dyn DynSubject, ty: &Ty, rep: &mut Report) {
 
 pub fn c11(ctx: &Ctx, subj: &dyn DynSubject, ty: &Ty, rep: &mut Report) {
     c11_big(ctx, subj, ty, rep);
-    if !rep.failures.is_empty() || matches!(crate::checks::replay_val(), Some(Val::Rec(f)) if matches!(f.first(), Some(Val::Seq(x)) if x.len() > 100_000)) {
+    if !rep.failures.is_empty() || matches!(crate::checks::replay_val(), Some(Val::Rec(f)) if matches!(f.first(), Some(Val::Seq(x)) if x.len() > 50_000)) {
         return;
     }
     let strat = with_entropy(strategy_for(ctx, ty, GenCfg { max_len: 6, long: false }), 64);
